@@ -121,6 +121,7 @@ type Stats struct {
 	Excluded    int            `json:"excluded_by_construction"`
 	Inconclusive int           `json:"inconclusive"`
 	Exhaustive  bool           `json:"exhaustive,omitempty"`
+	Bulk        int            `json:"bulk_nontrivial"` // distinct non-trivial cases counted in bulk (distinct by construction)
 	Extra       map[string]any `json:"extra,omitempty"`
 
 	ntSet map[uint64]struct{}
@@ -402,4 +403,45 @@ func (s LabelSrc) Intn(label string, n int) int {
 		return 0
 	}
 	return s[label] % n
+}
+
+// Bulk records many evaluated cases at once (enumerations); nontrivial are distinct by construction.
+func (e *Env) BulkCases(evals, nontrivial int, class string) {
+	s := e.S
+	s.mu.Lock()
+	defer s.mu.Unlock()
+	s.Evaluations += evals
+	s.Bulk += nontrivial
+	if class != "" {
+		s.Classes[class] += evals
+	}
+}
+
+// Sample appends a sample case (up to 4 are kept).
+func (e *Env) Sample(x any) {
+	s := e.S
+	s.mu.Lock()
+	defer s.mu.Unlock()
+	if len(s.Samples) < 4 {
+		s.Samples = append(s.Samples, x)
+	}
+}
+
+// Violation records a violation found outside a world run.
+func (e *Env) Violation(key, msg, replayBody string) {
+	s := e.S
+	path := filepath.Join(e.OutDir, fmt.Sprintf("%s-%s-shard%d.trace", e.Prop, sanitize(key), e.Shard))
+	_ = os.WriteFile(path, []byte(fmt.Sprintf("property=%s\nkey=%s\nmessage=%s\n%s\n", e.Prop, key, strings.ReplaceAll(msg, "\n", " | "), replayBody)), 0o644)
+	s.mu.Lock()
+	defer s.mu.Unlock()
+	if e.Known[e.Prop+"/"+key] {
+		s.KnownHits[key]++
+		return
+	}
+	for _, f := range s.Findings {
+		if f.Key == key {
+			return
+		}
+	}
+	s.Findings = append(s.Findings, Finding{Prop: e.Prop, Key: key, Msg: msg, Replay: path})
 }
